@@ -607,6 +607,12 @@ func (e *Engine) Obligations(f *ssa.Function) []*Obl {
 			// itself is reported as the undecided obligation
 			o.Status = Unsupported
 			o.Why = "result of an unclassified external callee: " + a.valName(v)
+		case a.vettedBy(s, v) != "":
+			// the pointer was handed to a module function whose nil error has been established on this path (a
+			// validation helper: `if err := validate(flag, p.T); err != nil { return err }`): what that success says about
+			// the pointer is a relation between its arguments that no summary of this engine expresses
+			o.Status = Unsupported
+			o.Why = untrackedPrefix + "nil-ness of " + a.valName(v) + " was examined by " + a.vettedBy(s, v) + ", which returned no error on this path; what that success implies for the pointer is not summarised"
 		default:
 			o.Status = Failed
 			o.Why = "no dominating non-nil check for " + a.valName(v)
@@ -785,4 +791,38 @@ func (e *Engine) Obligations(f *ssa.Function) []*Obl {
 		}
 	}
 	return out
+}
+
+// vettedBy: v was an argument of a module call that is known, in state s, to have returned a nil error.
+func (a *FuncAn) vettedBy(s *State, v ssa.Value) string {
+	if s == nil {
+		return ""
+	}
+	best := ""
+	for k, tv := range s.truth {
+		c, ok := k.(*ssa.Call)
+		if !ok || !tv {
+			continue
+		}
+		callee := c.Call.StaticCallee()
+		if callee == nil || !a.E.InModule(callee) || callee.Blocks == nil {
+			continue
+		}
+		if _, hasErr := errOfSignature(callee.Signature); !hasErr {
+			continue
+		}
+		for _, arg := range c.Call.Args {
+			if a.cv(arg) == v {
+				if n := FuncShort(callee); best == "" || n < best {
+					best = n
+				}
+			}
+		}
+	}
+	return best
+}
+
+func errOfSignature(sig *types.Signature) (int, bool) {
+	i := errIndex(sig)
+	return i, i >= 0
 }
